@@ -404,6 +404,7 @@ fn main() {
                 .unwrap_or_else(|| vec![0, 0xfff]);
             procsuite::suite_overmount(&mut ctx, &masks, args.iter().any(|a| a == "--faults"))
         }
+        "proc-racemount" => procsuite::suite_racemount(&mut ctx),
         "proc-matrix" => {
             let label = arg_val(&args, "--label").unwrap_or_else(|| "default".into());
             procsuite::suite_c08(&mut ctx, &label)
